@@ -6,11 +6,28 @@ open Model
 open Glue
 
 let label_of body = match String.index_opt body '=' with Some i -> String.sub body 0 i | None -> body
+(* body = label=text[!][#tag]*  : the favourite marker and the tags of the decrypted meta *)
+let fav_tags body =
+  match String.split_on_char '#' body with
+  | [] -> (false, [])
+  | b :: tags -> (String.length b > 0 && b.[String.length b - 1] = '!',
+                  List.map (fun t -> n_of_int (int_of_string (String.sub t 1 (String.length t - 1)))) tags)
+(* the archive folder: the one whose vault header carries VaultFlags::ARCHIVE (bit 2) *)
+let archive_of folders =
+  List.fold_left (fun acc fe -> match acc, String.index_opt fe '=' with
+    | None, Some k ->
+      let f = String.sub fe 0 k in
+      (match split_on ',' (String.sub fe (k + 1) (String.length fe - k - 1)) with
+       | first :: _ -> (match String.split_on_char ':' first with
+           | ["V"; _; flags; _; _] when (int_of_string flags) land 4 <> 0 -> Some f
+           | _ -> None)
+       | [] -> None)
+    | _ -> acc) None folders
 
 let run_line (line : string) : unit =
   match String.split_on_char ' ' line |> List.filter (fun s -> s <> "") with
   | _ :: case :: step :: who :: folders when folders <> [] ->
-    let x = ref empty_index in
+    let x = ref (new_index (archive_of folders)) in
     let labels : (string * string, string) Hashtbl.t = Hashtbl.create 16 in
     let bad = ref false in
     List.iter (fun fe ->
@@ -23,10 +40,12 @@ let run_line (line : string) : unit =
           match String.split_on_char ':' e with
           | ["C"; i; body] | ["U"; i; body] ->
             Hashtbl.replace labels (f, i) (label_of body);
+            let (fav, tags) = fav_tags body in
             x := ix_update String.equal String.equal !x
-                   { d_folder = f; d_id = i; d_label = N0; d_kind = n_of_int 2; d_fav = false }
+                   { d_folder = f; d_id = i; d_label = N0; d_kind = n_of_int 2; d_fav = fav; d_tags = tags }
           | ["D"; i] -> x := ix_remove String.equal String.equal !x f i
-          | "V" :: _ | ["N"; _] | ["G"; _] | ["M"; _] -> ()
+          | ["G"; g] -> if (int_of_string g) land 4 <> 0 || archive_of [fe] <> None then bad := true
+          | "V" :: _ | ["N"; _] | ["M"; _] -> ()
           | _ -> bad := true) evs) folders;
     if !bad then Printf.printf "%s unmodelled\n" case
     else begin
@@ -37,7 +56,11 @@ let run_line (line : string) : unit =
         f ^ ":" ^ String.concat ";" ls) fs in
       let vc = List.filter_map (fun (f, n) -> let n = int_of_nat n in if n > 0 then Some (Printf.sprintf "%s:%d" f n) else None)
           (List.sort compare !x.c_vaults) in
-      Printf.printf "%s %s %s index docs=%s vaults=%s\n" case step who (String.concat "|" docs) (String.concat ";" vc)
+      let nz l = List.filter_map (fun (k, n) -> let n = int_of_nat n in if n > 0 then Some (k, n) else None) l in
+      let kc = List.map (fun (k, n) -> Printf.sprintf "%d:%d" (int_of_n k) n) (List.sort compare (nz !x.c_kinds)) in
+      let tc = List.map (fun (k, n) -> Printf.sprintf "t%d:%d" (int_of_n k) n) (List.sort compare (nz !x.c_tags)) in
+      Printf.printf "%s %s %s index docs=%s vaults=%s kinds=%s favs=%d tags=%s\n" case step who (String.concat "|" docs) (String.concat ";" vc)
+        (String.concat ";" kc) (int_of_nat !x.c_favs) (String.concat ";" tc)
     end
   | _ :: case :: _ -> Printf.printf "%s unmodelled\n" case
   | _ -> ()
